@@ -124,7 +124,7 @@ def stepLine (st : DState) (line : String) : DState × List String :=
       let pre := (List.range b.length).all fun k => parse (b.take k) == .incomplete
       (st, [s!"{h.family} {addrStr h.addr} {bytesToHex b} | {presStr (parse (b ++ rest))} | prefixes={boolStr pre}"])
     | _, _, _, _ => (st, ["bad-op"])
-  | ["send", fam] =>
+  | "send" :: fam :: variant =>
     -- v46: an IPv4 client accepted on a dual-stack `[::]` listener: the accepted socket
     -- reports both addresses as v4-mapped IPv6
     let mapped : List Nat := [0, 0, 0, 0, 0, 0, 0, 0, 0, 0, 255, 255, 127, 0, 0, 1]
@@ -138,7 +138,22 @@ def stepLine (st : DState) (line : String) : DState × List String :=
       else if fam = "v46" then some (.v6 mapped 2222) else none
     match peer, loc with
     | some p, some l =>
-      let (_, res, out) := (Send.new p l).run [[.ok 100000]]
+      -- what the kernel answers to the header writes: all at once; or EAGAIN on the first call
+      -- (send buffer full) and everything on the second; or EPIPE (peer gone); or no backend socket
+      let sched : Option (List (List WRes)) := match variant with
+        | [] => some [[.ok 100000]]
+        | ["blocked"] => some [[.wouldBlock], [.ok 100000]]
+        | ["closed"] => some [[.err]]
+        | ["nobackend"] => none
+        | _ => some []
+      match sched with
+      | none => (st, ["close len=0 nothing"])
+      | some sched =>
+      let (_, res, out) := (Send.new p l).run sched
+      let first := match sched with
+        | [.wouldBlock] :: _ => "continue;"
+        | _ => ""
+      if out = [] then (st, [s!"{first}{resStr res} len=0 nothing"]) else
       let lab (a : Option SockAddr) : String :=
         if a = some p then "client" else if a = some l then "listener" else "other"
       match parse out with
@@ -147,8 +162,8 @@ def stepLine (st : DState) (line : String) : DState × List String :=
           | .v4 s d sp dp => (some (.v4 s sp), some (.v4 d dp))
           | .v6 s d sp dp => (some (.v6 s sp), some (.v6 d dp))
           | _ => (none, none)
-        (st, [s!"{resStr res} len={out.length} consumed={n} cmd={cmdStr h.cmd} fam={h.family} src={lab sa} dst={lab da}"])
-      | _ => (st, [s!"{resStr res} len={out.length} unparsable"])
+        (st, [s!"{first}{resStr res} len={out.length} consumed={n} cmd={cmdStr h.cmd} fam={h.family} src={lab sa} dst={lab da}"])
+      | _ => (st, [s!"{first}{resStr res} len={out.length} unparsable"])
     | _, _ => (st, ["bad-op"])
   -- expect machine
   | ["xnew"] => ({ st with x := {}, xdead := false, xq := [] }, ["x " ++ expectDump {}])
@@ -188,6 +203,11 @@ def stepLine (st : DState) (line : String) : DState × List String :=
       let (r', res, out) := st.r.backWritable ws
       ({ st with r := r', rdead := res != .cont }, [s!"{resStr res} out={bytesToHex out} cursor={r'.cursor} {relayDump r'}"])
     | none => (st, ["bad-op"])
+  | ["rwriteblocked"] =>
+    -- `back_writable` against a backend whose send buffer is full: the first `write` answers EAGAIN
+    if st.rdead then (st, ["dead"]) else
+    let (r', res, out) := st.r.backWritable [.wouldBlock]
+    ({ st with r := r', rdead := res != .cont }, [s!"{resStr res} out={bytesToHex out} cursor={r'.cursor} {relayDump r'}"])
   -- send machine
   | ["snew", peer, loc] =>
     match parseSock peer, parseSock loc with
